@@ -243,7 +243,9 @@ def run_plan(plan, seed, choices=None):
 
     def main():
         try:
-            cluster = w.make_cluster(protocol_version=4, idle_heartbeat_interval=0, profile={'lbp': lbp},
+            # (a dead control connection whose host keeps healthy pooled connections is only noticed by the heartbeat)
+            hb = 0.5 if any(x['kind'] == 'ctrl_move_remove' for x in plan['steps']) else 0
+            cluster = w.make_cluster(protocol_version=4, idle_heartbeat_interval=hb, idle_heartbeat_timeout=0.5, profile={'lbp': lbp},
                                      topology_event_refresh_window=0, status_event_refresh_window=0,
                                      reconnection_policy=w.cpol.ConstantReconnectionPolicy(50.0, max_attempts=None))
             session = cluster.connect(wait_for_all_pools=True)
@@ -265,6 +267,10 @@ def run_plan(plan, seed, choices=None):
                 old_ctrl.mode = 'refuse'
                 fc.rst_conns(old_ctrl.idx, 'control')
                 fc.remove_member(victim.idx, announce=None)
+                victim.mode = 'refuse'          # a node that left the ring does not take new client connections
+                w.sleep(0.2)
+                refresh_nodes(cluster)          # the dead control connection is noticed when it is used; the driver re-attaches elsewhere
+                st['refresh_errors'] = []       # (that refresh is expected to fail)
                 w.sleep(2.5)
                 old_ctrl.mode = 'accept'
                 cc = cluster.control_connection._connection
@@ -276,7 +282,7 @@ def run_plan(plan, seed, choices=None):
                 invalid.clear()
                 w.sleep(0.5)
                 check('step %d (control connection lost, %s left the ring meanwhile, control connection re-attached to %s)'
-                      % (k, victim.addr, now.addr), {'membership': True})
+                      % (k, victim.addr, now.addr), {'membership': before_members != expected_hosts()})
                 continue
             if stp['kind'] == 'false_removed':
                 sim.probe('removed_event_for_listed_peer')
